@@ -38,7 +38,7 @@ namespace ops = bspline::operators;
 struct Op {
   int code = 0, a = 0, b = 0, c = 0, d = 0;
 };
-enum Focus { F_C09 = 1, F_C10 = 2, F_C14 = 4, F_ALL = 7, F_C02 = 8 };
+enum Focus { F_C09 = 1, F_C10 = 2, F_C14 = 4, F_ALL = 7, F_C02 = 8, F_C15 = 16 };
 
 enum Code {
   G_NEW, G_NEW_INVALID, G_COPY, G_ASSIGN, G_EQUAL_DISTINCT, G_ACCESS,
@@ -242,6 +242,24 @@ class Interp {
     { Spline<T, o> cp(p); T x = sup.back(); if (!(cp(x) == piece(ni - 1, x))) fail("C02", who + ": value at the right end of the support is not the value of the last piece"); }
     { Spline<T, o> cp(p); if (!(cp(sup.front() - mk(1)) == mk(0)) || !(cp(sup.back() + mk(1, 3)) == mk(0))) fail("C02", who + ": non-zero value outside the closed support"); }
   }
+  // ---- C15 in histories: the predicates tell the truth about the object as it is NOW, whatever was asked before
+  template <size_t o>
+  void check_pred_of(const Spline<T, o> &p, const std::string &who) {
+    bool zero = true;
+    for (const auto &arr : p.getCoefficients()) for (const auto &c : arr) if (!(c == mk(0))) zero = false;
+    if (!p.getSupport().containsIntervals()) zero = true;
+    if (p.isZero() != zero) { fail("C15", who + ": isZero() = " + (zero ? "false" : "true") + " but the stored function is " + (zero ? "zero" : "non-zero")); return; }
+    { Spline<T, o> cp(p); if (cp.isZero() != zero) { fail("C15", who + ": a copy answers isZero() wrongly"); return; } }
+    if (!(p == p) || (p != p)) { fail("C15", who + ": == is not reflexive"); return; }
+    { Spline<T, o> cp(p); if (!(cp == p) || !(p == cp) || (cp != p)) { fail("C15", who + ": a copy does not compare equal"); return; } }
+    if (p.checkOverlap(p) != p.getSupport().containsIntervals()) fail("C15", who + ": checkOverlap with itself wrong");
+  }
+  void check_predicates() {
+    if (!(focus & F_C15)) return;
+    with_all([&](auto O, auto &v) {
+      for (size_t i = 0; i < v.size() && !failed; i++) check_pred_of(v[i], "spline<" + std::to_string(decltype(O)::value) + "> #" + std::to_string(i));
+    });
+  }
   void check_evaluations() {
     if (!(focus & F_C02)) return;
     if constexpr (Traits<T>::exact_arith) {
@@ -378,6 +396,7 @@ class Interp {
     if (failed) return;
     check_invariants();
     check_evaluations();
+    check_predicates();
     if (failed) return;
     if (focus & F_C14) {
       auto after = snapshot_all();
@@ -866,10 +885,14 @@ class Interp {
             size_t k = (unsigned)op.a % sa.numberOfIntervals();
             valid_call("evaluation", [&] { (void)va[a]((sa[k] + sa[k + 1]) / mk(2)); });
           }
+          valid_call("predicates", [&] { (void)va[a].isZero(); (void)(va[a] == va[a]); if (!differ) (void)va[a].checkOverlap(vb[b]); });
           if (differ) break;
           target(ka, a); inplace_mark(ka, a);
           valid_call("mutation after evaluation", [&] {
-            switch (((unsigned)op.b >> 2) % 5) {
+            switch (((unsigned)op.b >> 2) % 8) {
+              case 5: va[a] *= mk(0); break;
+              case 6: va[a] = va[a] * mk(0); break;
+              case 7: va[a] = -va[a]; va[a] /= mk(2); break;
               case 0: va[a] = vb[b]; break;  // cross-order (ob < oa) or same-order copy assignment
               case 1: va[a] += vb[b]; break;
               case 2: va[a] *= mk(3, 2); break;
